@@ -44,7 +44,7 @@ class LegacySessionCSRFStoragePolicy:
         """Returns ``True`` if the ``supplied_token`` is valid."""
         expected_token = self.get_csrf_token(request)
         return not strings_differ(
-            bytes_(expected_token), bytes_(supplied_token)
+            bytes_(expected_token, 'utf-8'), bytes_(supplied_token, 'utf-8')
         )
 
 
@@ -87,7 +87,7 @@ class SessionCSRFStoragePolicy:
         """Returns ``True`` if the ``supplied_token`` is valid."""
         expected_token = self.get_csrf_token(request)
         return not strings_differ(
-            bytes_(expected_token), bytes_(supplied_token)
+            bytes_(expected_token, 'utf-8'), bytes_(supplied_token, 'utf-8')
         )
 
 
@@ -157,7 +157,7 @@ class CookieCSRFStoragePolicy:
         """Returns ``True`` if the ``supplied_token`` is valid."""
         expected_token = self.get_csrf_token(request)
         return not strings_differ(
-            bytes_(expected_token), bytes_(supplied_token)
+            bytes_(expected_token, 'utf-8'), bytes_(supplied_token, 'utf-8')
         )
 
 
